@@ -25,7 +25,7 @@ func init() {
 			"oracle: no panic; error => zero result; with <= 1 deviation the error's type is the one the reference semantics derives from that deviation (success is tolerated only for an ill-typed expression in a destination position the interpreter need not evaluate); a fault at call k => an error whose message contains store-fault-k and a zero result; " +
 			"non-trivial = the execution ended in an error or made >= 1 store call; distinct = script text + inputs + fault index",
 		Assumptions: []string{"only scripts that parse without errors are in scope; edited scripts that do not parse are counted and skipped", "with 2 deviations only no-panic / atomicity / fault clauses are judged (two causes may be reported in either order)"},
-		QuickBudget: 70 * time.Second,
+		QuickBudget: 240 * time.Second,
 		ThoroBudget: 12 * time.Minute,
 		Run:         runC12,
 	})
